@@ -119,7 +119,7 @@ def fromrepr_module(E):
     src += "const ANCHOR: i128 = %s;\n" % E["anchor_rs"]
     fieldless = all(v["kind"] == "unit" for v in E["variants"])
     inst = D.inst(E)
-    if fieldless and E["generics"] == "none" and E["variants"]:
+    if fieldless and E["generics"] in ("none", "const", "constdef") and E["variants"]:
         # const-context clause: decided by compilation
         src += "pub const CONST_PROBE: Option<%s> = %s::from_repr(%s);\n" % (inst, E["name"], "0")
     src += IG.RUN
